@@ -65,6 +65,22 @@ theorem gamma_pl_count (ls : List LensSpec) :
       ∧ gammaPlNum false ls = (ls.filter (·.slope)).length := by
   rw [assign_indices]; simp [gammaPlNum]
 
+/-- **no lens indexes past the slope list**: every index handed to a lens is smaller than `gamma_pl_num`, the length of
+    `gamma_pl_list` that `ParamManager` builds — whatever the order of the lenses and whichever of them carry a scaling
+    list without the slope (the `IndexError` of a running index that advances for the wrong lenses cannot occur) -/
+theorem assign_index_lt (ls : List LensSpec) (i j k : ℕ) (h : (assign false ls i)[j]? = some (some k)) :
+    i ≤ k ∧ k < i + gammaPlNum false ls := by
+  have hmem : k ∈ (assign false ls i).filterMap id := by
+    rw [List.mem_filterMap]
+    exact ⟨some k, List.mem_of_getElem? h, rfl⟩
+  rw [assign_indices, List.mem_range'_1] at hmem
+  exact hmem
+
+/-- non-vacuity: a slope-less kinematic lens listed BEFORE two slope lenses — indices 0 and 1, `gamma_pl_num = 2` -/
+example : assign false [⟨some ["a_ani"]⟩, ⟨some ["a_ani", "gamma_pl"]⟩, ⟨none⟩, ⟨some ["gamma_pl"]⟩] 0
+    = [none, some 0, none, some 1] ∧
+    gammaPlNum false [⟨some ["a_ani"]⟩, ⟨some ["a_ani", "gamma_pl"]⟩, ⟨none⟩, ⟨some ["gamma_pl"]⟩] = 2 := by decide
+
 /-- the slope values of a lens list (each lens carrying its own value `v`), in lens order -/
 def slopeVals {β : Type} (ls : List (LensSpec × β)) : List β :=
   (ls.filter (·.1.slope)).map (·.2)
